@@ -148,7 +148,7 @@ CatOrder(sel, seen) == IF sel = <<>> THEN <<>>
                        ELSE <<Head(sel).cat>> \o CatOrder(Tail(sel), seen \cup {Head(sel).cat})
 
 \* ---------------------------------------------------------------- (b) value providers
-\* provider = [pk |-> "dict" | "atvp" | "comp", mem |-> sequence of members [pk |-> "dict"|"atvp", data |-> function]]
+\* provider = [pk |-> "dict" | "atvp" | "comp", mem |-> sequence of members [pk |-> "dict"|"atvp", data |-> function, call |-> set]]
 \* dict / atvp have exactly one member.  Lookup returns [known, sp, cache].
 \* behave._types.Unknown is a class, hence callable: ActiveTagValueProvider.use_value(Unknown) CALLS it and returns
 \* an instance, so a missing category comes back as a value that is not `Unknown` (a known category whose value
@@ -158,24 +158,36 @@ CatOrder(sel, seen) == IF sel = <<>> THEN <<>>
 CallsUnknownDefault == ~("C19_UNKNOWN_CALLED" \in DOMAIN IOEnv /\ IOEnv.C19_UNKNOWN_CALLED = "0")
 Missing(cache) == IF CallsUnknownDefault THEN [known |-> TRUE, sp |-> Junk, cache |-> cache]
                                          ELSE [known |-> FALSE, sp |-> Junk, cache |-> cache]
+\* Lazy values.  `data` of a member always holds the value that is current at the time of the call; m.call is the set
+\* of categories whose entry is a plain callable.  A dict member hands the callable out as it is (the composite caches
+\* the callable, use_value() evaluates it on every lookup: the answer follows the current value).  An
+\* ActiveTagValueProvider member evaluates the callable itself (use_value in its get), so the composite caches the
+\* RESULT: the value is frozen at the first lookup.  Value objects (also lazy ones) are handed out as objects.
+\* A cache entry is [m |-> index of the member that knew the category, frozen, sp |-> the value seen when caching].
+\* AtvpMemberFreezes = TRUE models the code as it is; the driver probes it (C19_ATVP_FREEZES = "0" -> FALSE), like
+\* CallsUnknownDefault this only keeps the informational comparison exact and never touches a verdict.
+AtvpMemberFreezes == ~("C19_ATVP_FREEZES" \in DOMAIN IOEnv /\ IOEnv.C19_ATVP_FREEZES = "0")
 MemberGet(m, c) ==      \* member.get(category, Unknown)
-   IF c \in DOMAIN m.data THEN [known |-> TRUE, sp |-> m.data[c]]
-   ELSE IF m.pk = "atvp" /\ CallsUnknownDefault THEN [known |-> TRUE, sp |-> Junk]
-   ELSE [known |-> FALSE, sp |-> Junk]
-RECURSIVE CompScan(_,_,_)
-CompScan(mem, c, cache) ==
-   IF mem = <<>> THEN Missing(cache)                                   \* value = default; use_value(default)
-   ELSE LET g == MemberGet(Head(mem), c) IN
-        IF g.known THEN [known |-> TRUE, sp |-> g.sp, cache |-> (c :> g.sp) @@ cache]     \* self.data[category] = value
-        ELSE CompScan(Tail(mem), c, cache)
+   IF c \in DOMAIN m.data THEN [known |-> TRUE, sp |-> m.data[c], frozen |-> (AtvpMemberFreezes /\ m.pk = "atvp" /\ c \in m.call)]
+   ELSE IF m.pk = "atvp" /\ CallsUnknownDefault THEN [known |-> TRUE, sp |-> Junk, frozen |-> TRUE]
+   ELSE [known |-> FALSE, sp |-> Junk, frozen |-> FALSE]
+RECURSIVE CompScan(_,_,_,_)
+CompScan(mem, k, c, cache) ==
+   IF k > Len(mem) THEN Missing(cache)                                 \* value = default; use_value(default)
+   ELSE LET g == MemberGet(mem[k], c) IN
+        IF g.known THEN [known |-> TRUE, sp |-> g.sp,                  \* self.data[category] = value
+                         cache |-> (c :> [m |-> k, frozen |-> g.frozen, sp |-> g.sp]) @@ cache]
+        ELSE CompScan(mem, k + 1, c, cache)
 Lookup(prov, cache, c) ==
    CASE prov.pk = "dict" -> [known |-> c \in DOMAIN prov.mem[1].data,
                              sp |-> IF c \in DOMAIN prov.mem[1].data THEN prov.mem[1].data[c] ELSE Junk, cache |-> cache]
      [] prov.pk = "atvp" -> IF c \in DOMAIN prov.mem[1].data THEN [known |-> TRUE, sp |-> prov.mem[1].data[c], cache |-> cache]
                             ELSE Missing(cache)
-     [] OTHER            -> IF c \in DOMAIN cache THEN [known |-> TRUE, sp |-> cache[c], cache |-> cache]
-                            ELSE CompScan(prov.mem, c, cache)
-EmptyCache == [c \in {} |-> Junk]
+     [] OTHER            -> IF c \in DOMAIN cache
+                            THEN [known |-> TRUE, cache |-> cache,
+                                  sp |-> IF cache[c].frozen THEN cache[c].sp ELSE prov.mem[cache[c].m].data[c]]
+                            ELSE CompScan(prov.mem, 1, c, cache)
+EmptyCache == [c \in {} |-> [m |-> 0, frozen |-> FALSE, sp |-> Junk]]
 
 \* ---------------------------------------------------------------- (b) is_tag_group_enabled / should_exclude_with
 GroupEnabled(sel, c, sp) ==
@@ -206,5 +218,5 @@ RECURSIVE AlgCompositeSel(_,_,_)
 AlgCompositeSel(sel, provs, ign) ==
    IF provs = <<>> THEN FALSE
    ELSE IF AlgExcludedSel(sel, Head(provs), ign) THEN TRUE ELSE AlgCompositeSel(sel, Tail(provs), ign)
-DictProv(data) == [pk |-> "dict", mem |-> <<[pk |-> "dict", data |-> data]>>]
+DictProv(data) == [pk |-> "dict", mem |-> <<[pk |-> "dict", data |-> data, call |-> {}]>>]
 =============================================================================
